@@ -84,6 +84,17 @@ func (l *Lexer) atEOL() bool {
 	return l.peek() == '\n' || strings.HasPrefix(l.rest(), "\r\n")
 }
 
+// atTaskKeyword returns whether or not the lexer is currently sat on the 'task' keyword,
+// as opposed to an identifier that merely starts with it e.g. 'tasks'.
+func (l *Lexer) atTaskKeyword() bool {
+	rest := l.rest()
+	if !strings.HasPrefix(rest, token.TASK.String()) {
+		return false
+	}
+	r, _ := utf8.DecodeRuneInString(rest[len(token.TASK.String()):])
+	return !isValidIdent(r)
+}
+
 // atEOF returns whether or not the lexer is currently at the end of a file.
 func (l *Lexer) atEOF() bool {
 	return l.pos >= len(l.input)
@@ -223,7 +234,7 @@ func lexStart(l *Lexer) lexFn {
 	switch {
 	case strings.HasPrefix(l.rest(), token.HASH.String()):
 		return lexHash
-	case strings.HasPrefix(l.rest(), token.TASK.String()):
+	case l.atTaskKeyword():
 		return lexTaskKeyword
 	case isValidIdent(l.peek()):
 		return lexIdent
